@@ -140,6 +140,13 @@ func c17Sequential(c *vk.Ctx) {
 			nIP, nKey = len(ips), len(keys)
 			c.Count("histories_with_concatenation_prone_ids", 1)
 		}
+		// client ports: random, or (every third history) from a set of two, so that a client's TCP and
+		// UDP tunnels often share a port number
+		port := func() int { return 1024 + r.Intn(60000) }
+		if h%3 == 2 {
+			port = func() int { return 40001 + r.Intn(2) }
+			c.Count("histories_with_shared_client_ports", 1)
+		}
 		acc := &c17Account{map[ipKey]int{}, map[ipKey]time.Duration{}, map[ipKey]time.Duration{}}
 		var open []*c17Tunnel
 		nOps := 10 + r.Intn(c.N(120, 300))
@@ -202,9 +209,18 @@ func c17Sequential(c *vk.Ctx) {
 			switch x := r.Intn(20); {
 			case x < 5: // open authenticated TCP
 				ip, key := ips[r.Intn(nIP)], keys[r.Intn(nKey)]
-				conn := &fakeNetConn{remote: &net.TCPAddr{IP: ip, Port: 1024 + r.Intn(60000), Zone: zoneOf[ip.String()]}, local: &net.TCPAddr{IP: net.IPv4(203, 0, 113, 10), Port: 9000}}
+				conn := &fakeNetConn{remote: &net.TCPAddr{IP: ip, Port: port(), Zone: zoneOf[ip.String()]}, local: &net.TCPAddr{IP: net.IPv4(203, 0, 113, 10), Port: 9000}}
 				m := sm.AddOpenTCPConnection(conn)
 				t := &c17Tunnel{kind: "tcp", ip: ip.String(), key: key, tcp: m}
+				if r.Intn(6) == 0 {
+					// connected, handshake not sent yet: the clock moves before it authenticates (the
+					// tunnel starts when it authenticates, not when it connected)
+					d := time.Duration(1+r.Intn(30)) * time.Second
+					clk.Advance(d)
+					now = time.Duration(clk.ns.Load())
+					trace = append(trace, fmt.Sprintf("tcp connected, %v before its handshake", d))
+					classes["handshake-after-a-wait"] = true
+				}
 				if r.Intn(5) > 0 {
 					m.AddAuthenticated(key)
 					t.authed = true
@@ -220,7 +236,7 @@ func c17Sequential(c *vk.Ctx) {
 				trace = append(trace, fmt.Sprintf("%v open %s %s %s", now, t.kind, t.ip, key))
 			case x < 8: // add UDP association
 				ip, key := ips[r.Intn(nIP)], keys[r.Intn(nKey)]
-				m := sm.AddUDPNatEntry(&net.UDPAddr{IP: ip, Port: 1024 + r.Intn(60000), Zone: zoneOf[ip.String()]}, key)
+				m := sm.AddUDPNatEntry(&net.UDPAddr{IP: ip, Port: port(), Zone: zoneOf[ip.String()]}, key)
 				t := &c17Tunnel{kind: "udp", ip: ip.String(), key: key, udp: m, authed: true}
 				acc.open(ipKey{t.ip, key}, now)
 				if acc.active[ipKey{t.ip, key}] > 1 {
@@ -538,6 +554,7 @@ func init() {
 			c.Require("simultaneous_first_open_rounds")
 			c.Require("zoned_clients")
 			c.Require("histories_with_concatenation_prone_ids")
+			c.Require("histories_with_shared_client_ports")
 			c.Require("e2e_udp_shutdown_cases")
 			c17Sequential(c)
 			c17Concurrent(c)
